@@ -289,8 +289,9 @@ func (self *Compiler) compileExpr(node ast.AnalyzedExpression) {
 	case ast.FunctionLiteralExpressionKind:
 		node := node.(ast.AnalyzedFunctionLiteralExpression)
 
-		sourceIdent := fmt.Sprintf("$lambda_%d", self.lambdaCount)
-		self.lambdaCount++
+		// numbered per module: the modules are compiled in the iteration order of a map
+		sourceIdent := fmt.Sprintf("$lambda_%d", self.lambdaCount[self.currModule])
+		self.lambdaCount[self.currModule]++
 
 		fnName := self.mangleFn(sourceIdent)
 		self.addFn(sourceIdent, fnName)
